@@ -207,7 +207,7 @@ func uniq(m map[string]string) map[string]bool {
 }
 
 func checkC10(ctx *Ctx) {
-	ctx.Res.Rule = "random balanced DAG workflows (multi-input, fan-out, FromStr / ParamSource parameters), optionally with a MapToTags component behind the first source, SCIPIPE_BUFSIZE in {1,3,128}; for every output of every task the audit file is parsed strictly (unknown fields rejected) and checked: process name, Command equal to what the Lean formatting model derives for that task, parameters, output paths, start <= finish and ExecTimeNS = finish - start, Upstream keyed by exactly the input paths, each embedded record identical (including ID) to the audit file of that input or an empty record for sources, and every tag of an input present on the output; non-trivial = at least two outputs; distinct by (graph, tagged)."
+	ctx.Res.Rule = "random balanced DAG workflows (multi-input, fan-out, FromStr / ParamSource parameters), optionally with a MapToTags component behind the first source, SCIPIPE_BUFSIZE in {1,3,128}; for every output of every task the audit file is parsed strictly (unknown fields rejected) and checked: process name, Command equal to what the Lean formatting model derives for that task, parameters, output paths, start <= finish and ExecTimeNS = finish - start, Upstream keyed by exactly the input paths, each embedded record identical (including ID) to the audit file of that input or an empty record for sources, and every tag of an input present on the output; non-trivial = at least two outputs; distinct by (graph, tagged); also: outputs with ../ in OutFiles, the lineage through a streaming edge (late consumer), and at kills around the renames no finalized output without a valid audit record."
 	r := NewRng(ctx.Seed)
 	n := 12
 	if ctx.Thorough() {
@@ -574,7 +574,7 @@ func taggedResume(ctx *Ctx) {
 }
 
 func checkC11(ctx *Ctx) {
-	ctx.Res.Rule = "chain workflows (1-3 inputs, 2-3 levels); the same outputs produced uninterrupted and (a) by RunTo on a prefix followed by Run, (b) by a run killed at the n-th occurrence of one of 20 instrumented points, cleanup and re-run, (c) by a complete run, deletion of the last level's outputs and re-run, (d) by four runs inside one OS process (all; last level deleted and redone; everything deleted and redone; last level deleted and redone); all cases non-trivial; distinct by (chain, mode, point). Checks: audit files of all outputs equal modulo IDs and timestamps between the two ways, records already on disk keep their ID, and each embedded ancestor record is identical to the audit file of that ancestor."
+	ctx.Res.Rule = "chain workflows (1-3 inputs, 2-3 levels); the same outputs produced uninterrupted and (a) by RunTo on a prefix followed by Run, (b) by a run killed at the n-th occurrence of one of 20 instrumented points, cleanup and re-run, (c) by a complete run, deletion of the last level's outputs and re-run, (d) by four runs inside one OS process (all; last level deleted and redone; everything deleted and redone; last level deleted and redone); all cases non-trivial; distinct by (chain, mode, point). Checks: audit files of all outputs equal modulo IDs and timestamps between the two ways, records already on disk keep their ID, and each embedded ancestor record is identical to the audit file of that ancestor; also: an audit record cut to 0 bytes (the resume may refuse it, it must not build on it), stale longer audit files left beside lost outputs, and RunTo / delete histories of a lineage with two taggers."
 	r := NewRng(ctx.Seed)
 	n := 15
 	if ctx.Thorough() {
